@@ -25,12 +25,12 @@ PARTIAL = ['acceptance IS a theorem for pay-to-pubkey, pay-to-pubkey-hash, bare 
 ASSUMPTIONS = ['C05_noninterference uses the standard-library axiom functional_extensionality_dep (to replace one oracle by an extensionally equal one)',
                'the concrete curve arithmetic (Model/Secp256k1.v) is assumed, not proved, to be a group (no elliptic-curve library installed)']
 RULE = ('spending transactions 1..4 in / 0..4 out; templates P2PK, P2PKH, bare m-of-n, P2SH-wrapped m-of-n; hash types '
-        '{ALL,NONE,SINGLE}x{,ANYONECANPAY} plus undefined bytes (0, 4, 0x41, 0x7f, 0xff); every signing position; followed by one '
+        '{ALL,NONE,SINGLE}x{,ANYONECANPAY} plus undefined bytes (0, 4, 0x41, 0x7f, 0xff, and NONE / SINGLE with the undefined bits 0x20 / 0x40: 0x22, 0x23, 0x42, 0x43, 0x62, 0x63, 0xa2, 0xe3); every signing position; followed by one '
         'edit from the catalogue (applied both to a fresh object and in place to the object just verified); engine 503: composite scripts (CHECKSIGVERIFY then CHECKSIG, multisig, NOT) with real signatures and undecodable public keys in every position, judged by the MODEL with the real oracle; one case in eight asks for short DER signatures (< 70 bytes: re-signed until r or s has leading zero bytes); engine 502: signer plans for the same templates (which listed or foreign key signs which slot: honest ordered subsets, one signer repeated in every slot, right keys in the wrong order, a foreign signature, too few / too many signatures), accepted iff the last m signatures are by distinct listed keys in listing order (surplus leading signatures are never examined); followed by one edit from the catalogue (each field of each input/output, insertion, removal, reordering, witness, foreign key) or none. '
         'non-trivial = all; distinct by case text')
 IN_COQ_SAMPLE = 0     # elliptic-curve arithmetic under vm_compute is too slow (measured: 25 s per scalar multiplication)
 
-HTS = [1, 2, 3, 0x81, 0x82, 0x83, 0, 4, 0x41, 0x7f, 0xff, 0x80]
+HTS = [1, 2, 3, 0x81, 0x82, 0x83, 0, 4, 0x41, 0x7f, 0xff, 0x80, 0x22, 0x23, 0x42, 0x43, 0x62, 0x63, 0xa2, 0xe3]
 N_ORDER = 0xFFFFFFFFFFFFFFFFFFFFFFFFFFFFFFFEBAAEDCE6AF48A03BBFD25E8CD0364141
 
 
